@@ -101,7 +101,9 @@ func daaHeader(prev bitcoin.Hash32, i int, ts uint32, salt uint32) *wire.BlockHe
 
 func daaRun(ctx context.Context, c *daaCase) []string {
 	var out []string
-	repo := headers.NewRepository(headers.DefaultConfig(), storage.NewMockStorage())
+	hcfg := headers.DefaultConfig()
+	hcfg.MaxBranchDepth = 1000 // forks start at the first window, 147 blocks below the tip
+	repo := headers.NewRepository(hcfg, storage.NewMockStorage())
 	repo.DisableDifficulty()
 	repo.DisableSplitProtection()
 	base := daaHeader(bitcoin.Hash32{}, 0, daaT0, 1)
@@ -135,6 +137,24 @@ func daaRun(ctx context.Context, c *daaCase) []string {
 		out = append(out, "main chain: target error "+err.Error())
 	} else if got != want {
 		out = append(out, fmt.Sprintf("main chain: required bits 0x%08x, the network's rule gives 0x%08x", got, want))
+	}
+
+	// competing headers on top of the endpoint blocks and of the blocks below them (forks that start
+	// there) do not change what the rule requires on the main chain
+	for _, j := range []int{3 + c.FirstSel, 2 + c.FirstSel, 147 + c.LastSel, 146 + c.LastSel} {
+		if j >= 150 {
+			continue // a child of the tip extends the chain
+		}
+		sib := daaHeader(hashes[j], j+1, ts(j+1, mainLast)+1, 9)
+		if err := repo.ProcessHeader(ctx, sib); err != nil {
+			return append(out, "harness: competing header refused: "+err.Error())
+		}
+	}
+	got, err = repo.VerifTarget(ctx, hashes[150], daaBaseHeight+151)
+	if err != nil {
+		out = append(out, "main chain after forks at the endpoint blocks: target error "+err.Error())
+	} else if got != want {
+		out = append(out, fmt.Sprintf("main chain after forks at the endpoint blocks: required bits 0x%08x, the network's rule gives 0x%08x", got, want))
 	}
 
 	return out
